@@ -129,6 +129,8 @@ HAND = [
     ("two-exports-conflict", {"files": [[("def", "n", "V1", "==")], [("def", "n", "V2", "==")]]}),
     ("two-exports-conflict-label-const", {"files": [[("lab", "n", "::")], [("def", "n", "V2", "=="), ("use", "n")]]}),
     ("duplicate-in-file", {"files": [[("def", "n", "V1", "="), ("def", "n", "V2", "="), ("use", "n")]]}),
+    ("duplicate-same-text", {"files": [[("def", "n", "V1", "="), ("use", "n"), ("def", "n", "V1", "="), ("use", "n")]]}),
+    ("duplicate-same-text-exported", {"files": [[("def", "n", "V1", "=="), ("def", "n", "V1", "==")], [("use", "n")]]}),
     ("duplicate-label-const", {"files": [[("lab", "n", ":"), ("def", "n", "V2", "=")]]}),
     ("case-insensitive-binding", {"files": [[("def", "Name", "V1", "=="), ("use", "NAME")], [("use", "name")]]}),
     ("case-insensitive-duplicate", {"files": [[("def", "Name", "V1", "="), ("def", "NAME", "V2", "=")]]}),
@@ -186,6 +188,40 @@ HAND += [
 ]
 
 
+# Programs whose constants are still pending where they are written (they mention labels further down): each is evaluated in the
+# scope / file where it was WRITTEN, whenever that happens.  [files], [(file index, byte offset, [const, coefV1, coefV2])]
+PENDING = {
+    "const-over-locals": ([".link {B}\ng1: nop\nlen = 2$ - 1$\n1$: .word {V1}\n.word 0\n2$: .word len\ng2: nop\n1$: .word 1, 2, 3\n2$: .word len, 2$ - 1$\n"],
+                          [(0, 6, [4, 0, 0]), (0, 16, [4, 0, 0]), (0, 18, [6, 0, 0])]),
+    "const-over-locals-used-late": ([".link {B}\ng1: nop\nlen = 2$ - 1$\n1$: .word {V1}\n2$: nop\ng2: nop\n1$: .word 1, 2, 3\n2$: .word len\n"],
+                                    [(0, 14, [2, 0, 0])]),
+    "same-private-name-pending/linked": ([".link {B}\nn = enda - .\ny == n + {V1}\n.word y\nenda:\n", "n = endb - .\n.word y - n, n\n.blkb 4\nendb:\n"],
+                                         [(0, 0, [2, 1, 0]), (1, 2, [2 - 8, 1, 0]), (1, 4, [8, 0, 0])]),
+    "same-private-name-pending/linked-reversed": (["n = endb - .\n.word y - n, n\n.blkb 4\nendb:\n", "n = enda - .\ny == n + {V1}\n.word y\nenda:\n.link {B}\n"],
+                                                  [(0, 0, [2 - 8, 1, 0]), (0, 2, [8, 0, 0]), (1, 8, [2, 1, 0])]),
+    "same-text-two-scopes": ([".link {B}\ng1: nop\n1$: .word {V1}\nhere1 = . - 1$\n.word here1\ng2: nop\n1$: .word 1, 2\nhere2 = . - 1$\n.word here2\n"],
+                             [(0, 4, [2, 0, 0]), (0, 12, [4, 0, 0])]),
+}
+
+
+def h_pending(params, vals, ctx):
+    files_t, probes = PENDING[params["name"]]
+    b = vals["B"]
+    require(0 <= b < 60000 and b % 2 == 0)
+    require(-1000 < vals["V1"] < 1000)
+    files = [(f"/w/p{i}.mac", t) for i, t in enumerate(files_t)]
+    o = assemble(files, vals, route=ctx.route, order=["B", "V1"])
+    ctx.observe_outcome(o)
+    ctx.reach(o.status == "ok")
+    if o.status != "ok" or o.errors:
+        return False
+    for fi, off, (c0, c1, _) in probes:
+        want = (c0 + c1 * vals["V1"]) % 65536
+        if not (word_at(o.code, off) == want):
+            return False
+    return True
+
+
 def obligations(tier, seed):
     rnd = random.Random(1100 + seed)
     obs = []
@@ -194,4 +230,7 @@ def obligations(tier, seed):
         vs = layout_vars(layout)
         obs.append(Ob(oid=name, harness=P + "h_scope", params={"layout": layout, "tag": f"L{k}"}, vars={"B": "int", **{v: "int" for v in vs}},
                       timeout=300, per_path=90, note=str(layout)[:300]))
+    for name in PENDING:
+        obs.append(Ob(oid=f"pending/{name}", harness=P + "h_pending", params={"name": name}, vars={"B": "int", "V1": "int"}, timeout=300, per_path=90,
+                      note=" || ".join(t.replace("\n", " / ") for t in PENDING[name][0])[:300]))
     return obs
